@@ -21,6 +21,7 @@ type Obligation struct {
 	Descr   string
 	IsCover bool // sat is the pass
 	Watch   []WatchTerm
+	Extra   []Term // additional assumptions (replay: small-scope bounds)
 }
 
 type WatchTerm struct {
@@ -37,7 +38,8 @@ type VC struct {
 	root     *ssa.Function
 	contract *FuncContract
 	fullName string
-	decls    strings.Builder
+	decls    strings.Builder // z3 rendering (lambda arrays)
+	declsC   strings.Builder // cvc5 rendering (quantified definitions)
 	nfresh   int
 	obls     []*Obligation
 	notes    []string // unsupported constructs etc
@@ -49,6 +51,11 @@ type VC struct {
 	inputs   []WatchTerm
 	assumed  map[string]bool // assumptions recorded for evidence
 	nosafe   bool
+	// for replay
+	entryState  *State
+	exitState   *State
+	paramTerms  []Term
+	resultTerms []Term
 	strLits  map[string]Term
 }
 
@@ -60,6 +67,30 @@ func NewVC(ctx *Ctx, fn *ssa.Function, c *FuncContract, fullName string) *VC {
 	return &VC{ctx: ctx, tt: NewTypeTable(mode, ctx.opaque), mode: mode, root: fn, contract: c, fullName: fullName,
 		ord: map[string]int{}, heapReg: map[Sort]bool{}, heapInit: map[string]bool{}, uf: map[string]bool{},
 		assumed: map[string]bool{}, strLits: map[string]Term{}}
+}
+
+func (vc *VC) emitf(format string, a ...any) {
+	s := fmt.Sprintf(format, a...)
+	vc.decls.WriteString(s)
+	vc.declsC.WriteString(s)
+}
+
+// LambdaHeap defines a heap H' with H'[q!r] = body, where body mentions the
+// bound variable q!r. z3 gets a lambda array (quantifier-free, so models are
+// produced); cvc5 gets the equivalent quantified definition of a fresh constant.
+func (vc *VC) LambdaHeap(base string, valSort Sort, body Term) Term {
+	n := vc.freshName(base)
+	hs := heapSort(valSort)
+	fmt.Fprintf(&vc.decls, "(define-fun %s () %s (lambda ((q!r Ref)) %s))\n", n, hs, body.S)
+	fmt.Fprintf(&vc.declsC, "(declare-const %s %s)\n(assert (forall ((q!r Ref)) (! (= (select %s q!r) %s) :pattern ((select %s q!r)))))\n", n, hs, n, body.S, n)
+	return Term{n, hs}
+}
+
+// MixHeap: H'[r] = old[r] where keep(r) holds, unconstrained elsewhere.
+func (vc *VC) MixHeap(valSort Sort, old Term, keep Term) Term {
+	fresh := vc.Fresh("hf", heapSort(valSort))
+	q := Term{"q!r", SRef}
+	return vc.LambdaHeap("hx", valSort, Ite(keep, Select(old, q), Select(fresh, q)))
 }
 
 func (vc *VC) note(format string, a ...any) {
@@ -82,7 +113,7 @@ func (vc *VC) freshName(base string) string {
 // Fresh declares an unconstrained constant.
 func (vc *VC) Fresh(base string, s Sort) Term {
 	n := vc.freshName(base)
-	fmt.Fprintf(&vc.decls, "(declare-const %s %s)\n", n, s)
+	vc.emitf("(declare-const %s %s)\n", n, s)
 	return Term{n, s}
 }
 
@@ -92,7 +123,7 @@ func (vc *VC) Define(base string, t Term) Term {
 		return t
 	}
 	n := vc.freshName(base)
-	fmt.Fprintf(&vc.decls, "(define-fun %s () %s %s)\n", n, t.Sort, t.S)
+	vc.emitf("(define-fun %s () %s %s)\n", n, t.Sort, t.S)
 	return Term{n, t.Sort}
 }
 
@@ -105,7 +136,7 @@ func (vc *VC) DeclareFun(name string, args []Sort, res Sort) {
 	for _, a := range args {
 		as = append(as, string(a))
 	}
-	fmt.Fprintf(&vc.decls, "(declare-fun %s (%s) %s)\n", name, strings.Join(as, " "), res)
+	vc.emitf("(declare-fun %s (%s) %s)\n", name, strings.Join(as, " "), res)
 }
 
 func (vc *VC) ordinal(key string) int {
@@ -153,7 +184,7 @@ func (vc *VC) baseHeap(base string, v Sort) Term {
 	name := "H!" + base + "!" + sanitize(string(v))
 	if !vc.heapInit[name] {
 		vc.heapInit[name] = true
-		fmt.Fprintf(&vc.decls, "(declare-const %s %s)\n", name, heapSort(v))
+		vc.emitf("(declare-const %s %s)\n", name, heapSort(v))
 	}
 	return Term{name, heapSort(v)}
 }
@@ -192,7 +223,7 @@ func (vc *VC) mapHeap(st *State, kind string, k, v Sort) Term {
 	name := "M!" + st.mbase + "!" + sanitize(key)
 	if !vc.heapInit[name] {
 		vc.heapInit[name] = true
-		fmt.Fprintf(&vc.decls, "(declare-const %s %s)\n", name, srt)
+		vc.emitf("(declare-const %s %s)\n", name, srt)
 	}
 	return Term{name, srt}
 }
